@@ -150,6 +150,38 @@ CLAIMS = {
         technique="CFG must-pass-through and dominance, freshness/alias check of pushed entries, option-forwarding dataflow",
         design_ref="5/C20",
     ),
+    "C01": dict(
+        category="other",
+        text="Decides the mechanism the property rests on, not the layout arithmetic: (R1.1) in the abstract domain `<= W + c` (min/max, subtraction of non-negatives, Measurement.get(..,X).maximum <= X by C09) every child render call of Constrain, Styled, Padding, Panel, Align and Tree receives a budget <= options.max_width, Console.render passes options down unchanged and refuses widths < 1; "
+             "(R1.2) render_lines crops/pads to max_width of the very options it rendered with; (R1.3) the common symbolic line width of Padding and Panel (line-width algebra of C08) is itself <= W. Necessary conditions: a failure admits an over-wide line. Not decided: text wrapping, table column solving (Table's widths are the output of the numeric solver), Align/Columns/Rule/Bar emission arithmetic, structural minimum.",
+        note=COMMON_NOTE + "C09 R9.1 (proved) is used as a summary; Console.render_lines pads/crops (C13).",
+        technique="abstract interpretation in the `<= W + c` domain over reaching definitions + symbolic line-width algebra of generator bodies",
+        design_ref="5/C01",
+    ),
+    "C07": dict(
+        category="other",
+        text="Structural necessary conditions of the rectangle property: (R7.1) the width vector from _calculate_column_widths flows unchanged to _render and, summed with _extra_width, to the render options; every width sink in _render (per-cell options, set_shape, box rows) receives that vector or an element iterated from it, with no arithmetic; (R7.2) _extra_width counts 2 under box and show_edge and n-1 under box, exactly the predicates under which _render emits edges and dividers; "
+             "(R7.3) every Box literal is 8x4 glyphs of cell width 1 (exhaustive over the literals, using rich's own width table) and get_top/get_row/get_bottom have the edge + runs + dividers shape; (R7.4) rows/cells are only appended and zipped in order. Not decided: that the solver's widths sum to the budget, expand = exactly W, characters stay in their column.",
+        note=COMMON_NOTE,
+        technique="identity dataflow of the width vector to its sinks, predicate agreement between accounting and emission, literal table validation",
+        design_ref="5/C07",
+    ),
+    "C08": dict(
+        category="other",
+        text="(R8.3) line-width algebra: abstract execution of Padding.__rich_console__ and Panel.__rich_console__ proves for every child, style, box, title and width that all emitted lines have one common symbolic cell width, that the child's lines pass through unmodified between the frame segments and that the frame adds exactly left+right / 2 cells to the width handed to the child - this decides 'equal width' and 'exactly the requested border and padding' for these two classes given render_lines' padding contract; "
+             "(R8.4) every rule yielded is resized to exactly options.max_width right before the yield; (R8.5) all tree guide strings are 4 cells and measure uses 4; (R8.6) box glyph tables. Not decided: Align centring, Bar/ProgressBar arithmetic, Columns placement, Tree traversal order.",
+        note=COMMON_NOTE + "render_lines pads each line to the options' max_width; set_shape/Text.align produce the requested width (C13/C05).",
+        technique="symbolic line-width algebra (linear forms) over generator bodies + CFG dominance",
+        design_ref="5/C08",
+    ),
+    "C09": dict(
+        category="proof",
+        text="(R9.1) proof by case analysis over an order abstraction: Measurement.get (with normalize/with_maximum/with_minimum interpreted from source) is evaluated by the checker's own AST evaluator for representatives of every weak ordering of (m, M, W) against the constants 0 and 1; since those functions are built only from min/max/comparisons, this covers all integer inputs: every non-raising path returns 0 <= min <= max <= W, and (0,0) for W < 1. "
+             "(R9.2) __rich_measure__ is invoked nowhere but inside Measurement.get, so the clamp cannot be bypassed; (R9.3) Padding/Panel/Constrain/Styled/Align measures mirror their render constants and Table._measure_column caps every return at the offered width; (R9.4) Text's min/max are max cell_len over words / lines. Decides the first clause of the property for all renderables and widths; the rest are necessary conditions. Not decided: rendering at the reported min/max stays within it.",
+        note=COMMON_NOTE + "order-abstraction argument for min/max expressions; __rich_measure__ of user classes returns a pair of ints.",
+        technique="case analysis over weak orderings with an AST evaluator (order abstraction) + who-may-call scan",
+        design_ref="5/C09",
+    ),
 }
 
 NA = {
